@@ -8,10 +8,18 @@
    same / a different value. *)
 EXTENDS HashTree
 
-CONSTANTS MinLeaves, MaxLeaves, MaxCalls, Alts, Dups
+(* Two families of behaviours are explored in one run (variable `mode`):
+     "adv": trees of AdvMin..AdvMax leaves, AdvCalls adversarial calls with every alternative; for trees of at most
+            DupSmallMax leaves also the "same"/"diff" ways of passing the leaf hash;
+     "ord": trees of 1..OrdMax leaves, OrdCalls calls with genuine-or-missing hashes only (validation orders). *)
+CONSTANTS AdvMin, AdvMax, AdvCalls, DupSmallMax, OrdMax, OrdCalls
 
-VARIABLES n, tree, k, last
-vars == <<n, tree, k, last>>
+VARIABLES mode, n, tree, k, last
+vars == <<mode, n, tree, k, last>>
+
+Alts     == IF mode = "adv" THEN {"g", "f", "s", "m"} ELSE {"g", "m"}
+Dups     == IF mode = "adv" /\ n <= DupSmallMax THEN {"no", "same", "diff"} ELSE {"no"}
+MaxCalls == IF mode = "adv" THEN AdvCalls ELSE OrdCalls
 
 Chain(nn, leaf) == {FirstLeaf(nn) + leaf} \cup NeededFor(FirstLeaf(nn) + leaf)
 ChoicesAt(i) == IF i = 0 THEN Alts \ {"s"} ELSE Alts
@@ -27,7 +35,8 @@ LeavesArg(nn, leaf, ch) ==
   LET li == FirstLeaf(nn) + leaf IN
   [l \in (IF ch[li] # "m" THEN {leaf} ELSE {}) |-> ValueOf(nn, li, ch[li])]
 
-Init == /\ n \in MinLeaves..MaxLeaves
+Init == /\ \/ mode = "adv" /\ n \in AdvMin..AdvMax
+           \/ mode = "ord" /\ n \in 1..OrdMax
         /\ tree = RootOnly(n)
         /\ k = 0
         /\ last = [res |-> "init", leaf |-> 0, ch |-> <<>>, dup |-> "no"]
@@ -41,7 +50,7 @@ Call == /\ k < MaxCalls
                   /\ tree' = r.tree
                   /\ last' = [res |-> res, leaf |-> leaf, ch |-> ch, dup |-> dup]
         /\ k' = k + 1
-        /\ UNCHANGED n
+        /\ UNCHANGED <<n, mode>>
 
 Next == Call
 Spec == Init /\ [][Next]_vars
